@@ -51,6 +51,7 @@ NAct(a) ==
       [] a.name = "Redeliver" -> [name |-> "Redeliver", k |-> a.k, tx |-> NTx(a.tx), result |-> a.result, failIdx |-> a.failIdx, code |-> a.code, offs |-> a.offs]
       [] a.name = "EndBlock" -> [name |-> "EndBlock", halted |-> a.halted, invOk |-> a.invOk]
       [] a.name = "GovSchedule" -> [name |-> "GovSchedule", amt |-> a.amt, ok |-> a.ok]
+      [] a.name = "Noise" -> [name |-> "Noise", kind |-> a.kind, tx |-> NTx(a.tx)]
       [] a.name = "BeginBlock" -> [name |-> "BeginBlock", minted |-> a.minted]
       [] a.name = "RestartBegin" -> [name |-> "RestartBegin", minted |-> a.minted, sameHash |-> a.sameHash]
       [] a.name = "ExportImportBegin" -> [name |-> "ExportImportBegin", minted |-> a.minted, exportOk |-> a.exportOk, exportTwiceEqual |-> a.exportTwiceEqual,
@@ -167,6 +168,7 @@ Dispatch ==
       [] act'.name = "Redeliver"         -> act'.k \in DOMAIN delivered /\ delivered[act'.k].tx = act'.tx /\ Redeliver(delivered[act'.k], act'.k)
       [] act'.name = "EndBlock"          -> EndBlock
       [] act'.name = "GovSchedule"       -> GovSchedule(act'.amt)
+      [] act'.name = "Noise"             -> Noise(act'.kind, act'.tx)
       [] act'.name = "BeginBlock"        -> BeginBlock(act'.minted)
       [] act'.name = "RestartBegin"      -> RestartBegin(act'.minted)
       [] act'.name = "ExportImportBegin" -> ExportImportBegin(act'.minted)
